@@ -69,6 +69,24 @@ def run(ck):
                                                       bool(p.get("shutdown"))),
                       "facts": {"base": p["base"], "nested": False, "retry": any(l["t"] == "retry" for l in p["layers"]),
                                 "family": "c06" if i % 2 else "c11"}})
+    # a future inside the stack is cancelled from outside (bottom-up) at the instant a client cancels the stack's own
+    # future (top-down): the two flows take the executor's and the future's locks; queued behind a busy single worker,
+    # so that both cancels can succeed
+    for ly in ({"t": "retry", "max": 3, "sleep": 100}, {"t": "throttle", "count": 2}, {"t": "timeout", "T": 5000},
+               {"t": "poll", "mode": "second"}, {"t": "map", "fn": "tag"}, {"t": "flat_map", "fn": "later"}):
+        for above in ([], [{"t": "map", "fn": "tag"}]):
+            layers = [dict(ly)] + [dict(x) for x in above]
+            for at in (100, 101):
+                p = {"base": "pool", "workers": 1, "layers": layers,
+                     "subs": [{"S": 0, "script": ["V"], "dur": 300, "thread": 0},
+                              {"S": 10, "script": ["E", "V"], "dur": 100, "thread": 1, "cb": True, "K": [at],
+                               "xcancel": {"tap": 1, "at": 100}, "wait": True}],
+                     "shutdown": None, "horizon": 60000}
+                for k in range(2 if quick else 10):
+                    tasks.append({"scen": "stack", "params": p, "strat": ["random", rng.randrange(10 ** 9), 0.5],
+                                  "gran": "line" if k % 2 else "sync", "lock_log": True,
+                                  "lock_key": "xk/%s" % ",".join(l["t"] for l in layers),
+                                  "facts": {"base": "pool", "nested": False, "retry": ly["t"] == "retry", "family": "xk"}})
     pairs = ck.run_and_validate(tasks, TRACE)
     # directed: shutdown(wait=True) at every point of a freshly woken worker-loop iteration (a lost wake-up ends in a
     # join that never returns)
